@@ -231,7 +231,7 @@ Proof.
       * destruct B1 as [B1 B2]. split; cbn [set_conn a_thmap]; rewrite E2; auto.
       * rewrite cget_set_other by auto. rewrite E1. cbn [set_th a_conns]. rewrite cget_set_other by auto. exact CG.
     + split; [exact B1|]. rewrite cget_set_other by auto. cbn [set_th a_conns]. rewrite cget_set_other by auto. exact CG.
-  - destruct m as [p t0 rid pt d0 dco | p t0 d0 dco sg | p t0 | fk tk | fd td | dc fk tk | iss sub signer fk tk].
+  - destruct m as [p t0 rid pt d0 dco | p t1 dt d0 dco sg | p t1 dt | fk tk | fd td | dc fk tk | iss sub signer fk tk].
     + (* request *)
       cbn [touches input_cid] in FT, FC. assert (NC : c0 <> c) by congruence. assert (NC' : c <> c0) by congruence.
       unfold step.
@@ -266,7 +266,15 @@ Proof.
       cbn [fst]. split; [exact B3|]. rewrite cget_set_other by auto. exact C3.
     + (* response *)
       cbn [touches input_cid] in FT. unfold step.
-      destruct (negb (can (cur_state a My t0) SResponded)); [cbn; auto|].
+      destruct (negb (can (cur_state a My t1) SResponded)); [cbn; auto|].
+      assert (RID : dt = t1 \/ (match v with Fixed => negb (N.eqb dt t1) | AsIs => false end) = true).
+      { destruct v.
+        - left. destruct AG as [AG|AG]; [discriminate|exact AG].
+        - destruct (N.eqb dt t1) eqn:Q; [left; apply N.eqb_eq in Q; auto|right; reflexivity]. }
+      destruct RID as [->|RID]; [|rewrite RID; cbn; auto].
+      replace (match v with Fixed => negb (N.eqb t1 t1) | AsIs => false end) with false
+        by (destruct v; [reflexivity|rewrite N.eqb_refl; reflexivity]).
+      cbv zeta. rename t1 into t0.
       destruct (tget (a_thmap a) My t0) as [c1|] eqn:TG; [|cbn; auto].
       assert (NC : c1 <> c) by (eapply LOOK; eauto).
       assert (NC' : c <> c1) by congruence.
@@ -287,7 +295,15 @@ Proof.
       * rewrite E2. rewrite cget_set_other by auto. cbn [set_vdr a_conns]. exact C1.
     + (* complete *)
       cbn [touches input_cid] in FT. unfold step.
-      destruct (negb (can (cur_state a Their t0) SCompleted)); [cbn; auto|].
+      destruct (negb (can (cur_state a Their t1) SCompleted)); [cbn; auto|].
+      assert (RID : dt = t1 \/ (match v with Fixed => negb (N.eqb dt t1) | AsIs => false end) = true).
+      { destruct v.
+        - left. destruct AG as [AG|AG]; [discriminate|exact AG].
+        - destruct (N.eqb dt t1) eqn:Q; [left; apply N.eqb_eq in Q; auto|right; reflexivity]. }
+      destruct RID as [->|RID]; [|rewrite RID; cbn; auto].
+      replace (match v with Fixed => negb (N.eqb t1 t1) | AsIs => false end) with false
+        by (destruct v; [reflexivity|rewrite N.eqb_refl; reflexivity]).
+      cbv zeta. rename t1 into t0.
       destruct (tget (a_thmap a) Their t0) as [c1|] eqn:TG; [|cbn; auto].
       assert (NC : c1 <> c) by (eapply LOOK; eauto).
       assert (NC' : c <> c1) by congruence.
@@ -325,11 +341,12 @@ Proof.
 Qed.
 
 (* a completed record is terminal: no input changes it (only a re-used connection id could shadow it) *)
-Lemma step_completed_stable : forall v a i c r, cget (a_conns a) c = Some r -> c_state r = SCompleted ->
+Lemma step_completed_stable : forall v a i c r, (v = Fixed \/ ids_agree i) ->
+  cget (a_conns a) c = Some r -> c_state r = SCompleted ->
   (forall c', input_cid i = Some c' -> cget (a_conns a) c' = None) -> not_rotating (c_their r) i ->
   cget (a_conns (fst (step v a i))) c = Some r.
 Proof.
-  intros v a i c r CG ST FR NR.
+  intros v a i c r AG CG ST FR NR.
   assert (NEWC : forall c0, input_cid i = Some c0 -> c <> c0).
   { intros c0 H E. subst. rewrite (FR _ H) in CG. discriminate. }
   destruct i as [i0 k0 | p i0 k0 e0 c0 t0 my | m c0 my].
@@ -339,7 +356,7 @@ Proof.
     + apply new_my_proj in NM. destruct NM as (E1 & _). rewrite cget_set_other by auto. rewrite E1.
       cbn [set_th a_conns]. rewrite cget_set_other by auto. exact CG.
     + rewrite cget_set_other by auto. cbn [set_th a_conns]. rewrite cget_set_other by auto. exact CG.
-  - destruct m as [p t0 rid pt d0 dco | p t0 d0 dco sg | p t0 | fk tk | fd td | dc fk tk | iss sub signer fk tk].
+  - destruct m as [p t0 rid pt d0 dco | p t1 dt d0 dco sg | p t1 dt | fk tk | fd td | dc fk tk | iss sub signer fk tk].
     + assert (NC : c <> c0) by (apply NEWC; reflexivity). unfold step.
       destruct (negb (can (cur_state a Their t0) SRequested)); [cbn; auto|].
       destruct (N.eqb pt 0); [cbn; auto|].
@@ -360,7 +377,15 @@ Proof.
       destruct (iget (a_invs a3) pt); [|apply AB; auto].
       cbn [fst]. rewrite cget_set_other by auto. exact C3.
     + unfold step.
-      destruct (negb (can (cur_state a My t0) SResponded)) eqn:CAN; [cbn; auto|].
+      destruct (negb (can (cur_state a My t1) SResponded)) eqn:CAN; [cbn; auto|].
+      assert (RID : dt = t1 \/ (match v with Fixed => negb (N.eqb dt t1) | AsIs => false end) = true).
+      { destruct v.
+        - left. destruct AG as [AG|AG]; [discriminate|exact AG].
+        - destruct (N.eqb dt t1) eqn:Q; [left; apply N.eqb_eq in Q; auto|right; reflexivity]. }
+      destruct RID as [->|RID]; [|rewrite RID; cbn; auto].
+      replace (match v with Fixed => negb (N.eqb t1 t1) | AsIs => false end) with false
+        by (destruct v; [reflexivity|rewrite N.eqb_refl; reflexivity]).
+      cbv zeta. rename t1 into t0.
       destruct (tget (a_thmap a) My t0) as [c1|] eqn:TG; [|cbn; auto].
       assert (NC : c <> c1).
       { intros E. subst c1. unfold cur_state in CAN. rewrite TG, CG, ST in CAN. discriminate. }
@@ -376,7 +401,15 @@ Proof.
       apply sbr_proj in SB. destruct SB as (_ & E2 & _).
       cbn [fst]. rewrite E2. rewrite cget_set_other by auto. exact C1.
     + unfold step.
-      destruct (negb (can (cur_state a Their t0) SCompleted)) eqn:CAN; [cbn; auto|].
+      destruct (negb (can (cur_state a Their t1) SCompleted)) eqn:CAN; [cbn; auto|].
+      assert (RID : dt = t1 \/ (match v with Fixed => negb (N.eqb dt t1) | AsIs => false end) = true).
+      { destruct v.
+        - left. destruct AG as [AG|AG]; [discriminate|exact AG].
+        - destruct (N.eqb dt t1) eqn:Q; [left; apply N.eqb_eq in Q; auto|right; reflexivity]. }
+      destruct RID as [->|RID]; [|rewrite RID; cbn; auto].
+      replace (match v with Fixed => negb (N.eqb t1 t1) | AsIs => false end) with false
+        by (destruct v; [reflexivity|rewrite N.eqb_refl; reflexivity]).
+      cbv zeta. rename t1 into t0.
       destruct (tget (a_thmap a) Their t0) as [c1|] eqn:TG; [|cbn; auto].
       assert (NC : c <> c1).
       { intros E. subst c1. unfold cur_state in CAN. rewrite TG, CG, ST in CAN. discriminate. }
@@ -396,15 +429,18 @@ Proof.
       f_equal. eapply rot_rec_id; [left; reflexivity|exact NR|exact C].
 Qed.
 
-Lemma run_completed_stable : forall v is a c r, fresh_ids v a is -> Forall (not_rotating (c_their r)) is ->
+Lemma run_completed_stable : forall v is a c r, (v = Fixed \/ Forall ids_agree is) ->
+  fresh_ids v a is -> Forall (not_rotating (c_their r)) is ->
   cget (a_conns a) c = Some r -> c_state r = SCompleted ->
   cget (a_conns (final v a is)) c = Some r.
 Proof.
-  induction is as [|i rest IH]; intros a c r F NR CG ST; unfold final; cbn [run fst]; [auto|].
+  induction is as [|i rest IH]; intros a c r AG F NR CG ST; unfold final; cbn [run fst]; [auto|].
   cbn [fresh_ids] in F. destruct F as [F1 F2]. inversion NR as [|? ? N1 N2]; subst.
-  pose proof (step_completed_stable v a i c r CG ST F1 N1) as C1.
+  assert (AG1 : v = Fixed \/ ids_agree i) by (destruct AG as [AG|AG]; [auto|inversion AG; auto]).
+  assert (AG2 : v = Fixed \/ Forall ids_agree rest) by (destruct AG as [AG|AG]; [auto|inversion AG; auto]).
+  pose proof (step_completed_stable v a i c r AG1 CG ST F1 N1) as C1.
   destruct (step v a i) as [a1 o] eqn:E. destruct (run v a1 rest) as [a2 os] eqn:R. cbn [fst] in *.
-  pose proof (IH a1 c r F2 N2 C1 ST) as C2. unfold final in C2. rewrite R in C2. exact C2.
+  pose proof (IH a1 c r AG2 F2 N2 C1 ST) as C2. unfold final in C2. rewrite R in C2. exact C2.
 Qed.
 
 (* ---------- the four protocol steps ---------- *)
@@ -437,7 +473,7 @@ Qed.
 Lemma request_ok : forall A p t pt d dc c my e ks m,
   unused A c ->
   snd (step Fixed A (IRecv (MRequest p t t pt d (Some dc)) c my)) = [OSend e ks m] ->
-  exists ik rk, m = MResponse p t (d_id my) (Some my) ik /\ e = d_ep dc /\ ks = d_keys dc /\
+  exists ik rk, m = MResponse p t t (d_id my) (Some my) ik /\ e = d_ep dc /\ ks = d_keys dc /\
   cget (a_conns (fst (step Fixed A (IRecv (MRequest p t t pt d (Some dc)) c my)))) c
     = Some (Conn Their t SResponded (d_id my) d rk) /\
   owns (fst (step Fixed A (IRecv (MRequest p t t pt d (Some dc)) c my))) Their t c /\
@@ -466,15 +502,18 @@ Qed.
 
 Lemma response_ok : forall v B p t d dc sg x y c r e ks m,
   owns B My t c -> cget (a_conns B) c = Some r ->
-  snd (step v B (IRecv (MResponse p t d (Some dc) sg) x y)) = [OSend e ks m] ->
-  m = MComplete p t /\ e = d_ep dc /\ ks = d_keys dc /\
-  cget (a_conns (fst (step v B (IRecv (MResponse p t d (Some dc) sg) x y)))) c
-    = Some (Conn My t SCompleted (c_my r) d (c_rk r)) /\
-  owns (fst (step v B (IRecv (MResponse p t d (Some dc) sg) x y))) My t c /\
-  vget (a_vdr (fst (step v B (IRecv (MResponse p t d (Some dc) sg) x y)))) (d_id dc) = Some dc.
+  snd (step v B (IRecv (MResponse p t t d (Some dc) sg) x y)) = [OSend e ks m] ->
+  m = MComplete p t t /\ e = d_ep dc /\ ks = d_keys dc /\
+  cget (a_conns (fst (step v B (IRecv (MResponse p t t d (Some dc) sg) x y)))) c
+    = Some (Conn My (c_th r) SCompleted (c_my r) d (c_rk r)) /\
+  owns (fst (step v B (IRecv (MResponse p t t d (Some dc) sg) x y))) My t c /\
+  vget (a_vdr (fst (step v B (IRecv (MResponse p t t d (Some dc) sg) x y)))) (d_id dc) = Some dc.
 Proof.
   intros v B p t d dc sg x y c r e ks m OW CG H. pose proof OW as [O1 O2]. unfold step in *.
   destruct (negb (can (cur_state B My t) SResponded)); [cbn in H; discriminate|].
+  replace (match v with Fixed => negb (N.eqb t t) | AsIs => false end) with false in *
+    by (destruct v; [reflexivity|rewrite N.eqb_refl; reflexivity]).
+  cbv zeta in *.
   rewrite O1 in *. rewrite CG in *.
   destruct (negb match p with DX => true | LC => _ end); [cbn in H; discriminate|].
   destruct (vput v _ dc) as [s|] eqn:VP; [|cbn in H; discriminate].
@@ -490,14 +529,17 @@ Qed.
 
 Lemma complete_ok : forall v A p t x y c r,
   owns A Their t c -> cget (a_conns A) c = Some r -> c_state r = SResponded ->
-  cget (a_conns (fst (step v A (IRecv (MComplete p t) x y)))) c = Some (with_state r SCompleted) /\
-  owns (fst (step v A (IRecv (MComplete p t) x y))) Their t c /\
-  a_vdr (fst (step v A (IRecv (MComplete p t) x y))) = a_vdr A /\
+  cget (a_conns (fst (step v A (IRecv (MComplete p t t) x y)))) c = Some (with_state r SCompleted) /\
+  owns (fst (step v A (IRecv (MComplete p t t) x y))) Their t c /\
+  a_vdr (fst (step v A (IRecv (MComplete p t t) x y))) = a_vdr A /\
   exists ok, save_by_resolving v (set_conn A c (with_state r SCompleted)) (c_their r) (fallback (c_rk r))
-             = (fst (step v A (IRecv (MComplete p t) x y)), ok).
+             = (fst (step v A (IRecv (MComplete p t t) x y)), ok).
 Proof.
   intros v A p t x y c r OW CG ST. pose proof OW as [O1 O2]. unfold step.
   unfold cur_state. rewrite O1, CG, ST. cbn [can negb].
+  replace (match v with Fixed => negb (N.eqb t t) | AsIs => false end) with false
+    by (destruct v; [reflexivity|rewrite N.eqb_refl; reflexivity]).
+  cbv zeta. rewrite ?O1, ?CG.
   destruct (save_by_resolving v _ _ _) as [a2 ok] eqn:SB. cbn [fst].
   pose proof SB as SB'. apply sbr_proj in SB. destruct SB as (E1 & E2 & E3 & _).
   split; [|split; [|split]].
@@ -520,11 +562,12 @@ Qed.
 
 Lemma response_keys : forall B p t d dc sg x y c r e ks m,
   owns B My t c -> cget (a_conns B) c = Some r -> d = d_id dc ->
-  snd (step Fixed B (IRecv (MResponse p t d (Some dc) sg) x y)) = [OSend e ks m] ->
-  forall z, In z (d_keys dc) -> kget (a_keyidx (fst (step Fixed B (IRecv (MResponse p t d (Some dc) sg) x y)))) z = Some (d_id dc).
+  snd (step Fixed B (IRecv (MResponse p t t d (Some dc) sg) x y)) = [OSend e ks m] ->
+  forall z, In z (d_keys dc) -> kget (a_keyidx (fst (step Fixed B (IRecv (MResponse p t t d (Some dc) sg) x y)))) z = Some (d_id dc).
 Proof.
   intros B p t d dc sg x y c r e ks m OW CG ED H z Hin. pose proof OW as [O1 O2]. unfold step in *.
   destruct (negb (can (cur_state B My t) SResponded)); [cbn in H; discriminate|].
+  rewrite N.eqb_refl in *. cbn [negb] in *. cbv zeta in *.
   rewrite O1 in *. rewrite CG in *.
   destruct (negb match p with DX => true | LC => _ end); [cbn in H; discriminate|].
   destruct (vput Fixed _ dc) as [s|] eqn:VP; [|cbn in H; discriminate].
@@ -581,7 +624,7 @@ Proof.
   (* other traffic at bob, then the response *)
   destruct (run_frame Fixed midB B2 My t cB (Conn My t SRequested (d_id docB) 0 k) (d_id myA) (or_introl eq_refl) (or_intror eq_refl) NRmB FmB OB2 RB2) as [OB3 RB3]. fold B3 in OB3, RB3.
   destruct (response_ok Fixed B3 p t (d_id myA) myA ik xb yb cB _ e3 k3 cmpl OB3 RB3 H3) as (Ecmpl & Ee3 & Ek3 & RB4 & OB4 & VB4).
-  fold B4 in RB4, OB4, VB4. subst cmpl. cbn [c_my c_rk] in RB4.
+  fold B4 in RB4, OB4, VB4. subst cmpl. cbn [c_my c_rk c_th] in RB4.
   destruct (run_frame Fixed postB B4 My t cB (Conn My t SCompleted (d_id docB) (d_id myA) k) (d_id myA) (or_introl eq_refl) (or_introl eq_refl) NRpB FpB OB4 RB4) as [_ RB']. fold B' in RB'.
   (* other traffic at alice, then the complete *)
   destruct (run_frame Fixed midA A2 Their t cA (Conn Their t SResponded (d_id myA) (d_id docB) rk) (d_id docB) (or_introl eq_refl) (or_introl eq_refl) NRmA FmA OA2 RA2) as [OA3 RA3]. fold A3 in OA3, RA3.
@@ -596,14 +639,14 @@ Proof.
   assert (KB4 := response_keys B3 p t (d_id myA) myA ik xb yb cB _ e3 k3 _ OB3 RB3 eq_refl H3). fold B4 in KB4.
   split; [exact Ee2|]. split; [exact Ek2|]. split; [exact Ee3|]. split; [exact Ek3|]. split; [|split; [|split]].
   - intros tk Hin. unfold A'. apply final_mono_keys.
-    destruct (step_mono A3 (IRecv (MComplete p t) xa ya)) as [_ M]. apply M. unfold A3. apply final_mono_keys. auto.
+    destruct (step_mono A3 (IRecv (MComplete p t t) xa ya)) as [_ M]. apply M. unfold A3. apply final_mono_keys. auto.
   - intros FRESH fk Hin. unfold A'. apply final_mono_keys.
     unfold save_by_resolving in SB. cbn [set_conn a_vdr with_state c_their c_rk] in SB. rewrite VA3 in SB.
     apply set_keys_proj in SB. destruct SB as (_ & _ & _ & _ & KP). cbn [set_conn a_keyidx] in KP.
     destruct (kput_fresh_ok (d_keys docB) (a_keyidx A3) (d_id docB) FRESH) as [s' KP'].
     rewrite KP' in KP. inversion KP. subst. eapply kput_ok_all; eauto.
   - intros z Hin. unfold B'. apply final_mono_keys.
-    destruct (step_mono B3 (IRecv (MResponse p t (d_id myA) (Some myA) ik) xb yb)) as [_ M]. apply M.
+    destruct (step_mono B3 (IRecv (MResponse p t t (d_id myA) (Some myA) ik) xb yb)) as [_ M]. apply M.
     unfold B3. apply final_mono_keys. auto.
   - intros z Hin. unfold B'. apply final_mono_keys. auto.
 Qed.
